@@ -554,6 +554,10 @@ def gen_done_chart(seed, logexpr=None):
         r.trans.append(Tr(r, ['done.state.' + r.id], None, [], False, log('D')))
         return r
     for _ in range(rng.randint(2, 3)): region(par, 0)
+    if rng.random() < 0.4:
+        # a history pseudo-state among the regions: it is no region and must not count for done.state.P
+        h = St(nid('h'), 'history', par, rng.choice(['shallow', 'deep'])); par.children.insert(rng.randint(0, len(par.children)), h)
+        h.trans.append(Tr(h, None, None, [par.states()[0].id], False, []))
     ok = St('pass', 'state', root); root.children.append(ok)
     ok.onentry.append(log('N'))
     par.trans.append(Tr(par, ['done.state.P'], None, ['pass'], False, log('D')))
@@ -595,6 +599,70 @@ def gen_hist_chart(seed, logexpr=None):
     for _ in range(2):
         hist += ['e1'] * rng.randint(0, 2) + ['e2', rng.choice(['e3', 'e3', 'e2'])]
     hist = hist[:6] + (['e1'] if rng.random() < 0.5 else [])
+    return ch, hist
+
+
+def gen_conflict_chart(seed, logexpr=None):
+    """Documents about transition selection in parallel regions: several regions (some with a single child, some nested) whose states,
+    regions and the parallel itself carry transitions for the same events with domains of every size (self loops, siblings, the other
+    region, the parallel, its parent, outside, targetless, internal); the parallel is sometimes the last thing in its parent."""
+    rng = random.Random(seed)
+    lab = [0]
+
+    def log(prefix):
+        lab[0] += 1; return [('log', '%s%d' % (prefix, lab[0]), logexpr)]
+    root = St('root', 'scxml')
+    on = St('on', 'state', root); root.children.append(on)
+    if rng.random() < 0.5:
+        off = St('off', 'state', on); on.children.append(off)
+    p = St('p', 'parallel', on); on.children.append(p)
+    leaves = []; regions = []
+    for i in range(rng.randint(2, 3)):
+        r = St('r%d' % i, 'state', p); p.children.append(r); regions.append(r)
+        for j in range(rng.choice([1, 1, 2])):
+            c = St('c%d%d' % (i, j), 'state', r); r.children.append(c); leaves.append(c)
+            if rng.random() < 0.2:
+                g = St('g%d%d' % (i, j), 'state', c); c.children.append(g); leaves.append(g)
+    if rng.random() < 0.4:
+        aft = St('aft', 'state', on); on.children.append(aft)
+    other = St('other', 'state', root); root.children.append(other)
+    on.initial_attr = ['p']
+    ch = Chart(root)
+    pool = [q.id for q in ch.proper()]
+    for src in leaves + regions + [p, on, other]:
+        src.onentry.append(log('N')); src.onexit.append(log('X'))
+        for _ in range(rng.choice([0, 1, 1, 2]) if src in leaves else rng.choice([0, 0, 1])):
+            ev = rng.choice(['e1', 'e1', 'e1', 'e2'])
+            r = rng.random()
+            if r < 0.15: tg = []
+            elif r < 0.3: tg = [src.id]
+            else: tg = [rng.choice(pool)]
+            internal = bool(tg) and src.states() and is_descendant(ch.by_id[tg[0]], src) and rng.random() < 0.5
+            src.trans.append(Tr(src, [ev], None, tg, internal, log('T')))
+    ch.reindex()
+    hist = [rng.choice(['e1', 'e1', 'e2']) for _ in range(rng.randint(1, 5))]
+    return ch, hist
+
+
+def gen_late_chart(seed, logexpr=True):
+    """Documents about late binding: states with local data that is counted up on every entry; the history enters and leaves them repeatedly."""
+    rng = random.Random(seed)
+    root = St('root', 'scxml')
+    names = ['a', 'b', 'c'][:rng.randint(2, 3)]
+    sts = []
+    for i, n in enumerate(names):
+        s = St(n, 'state', root); root.children.append(s); sts.append(s)
+        if rng.random() < 0.8:
+            v = 'k' + n
+            s.data.append((v, rng.randint(0, 3)))
+            s.onentry.append([('assign', v, ('add', ('var', v), ('const', 1))), ('log', 'L' + n, ('var', v))])
+        else:
+            s.onentry.append([('log', 'L' + n, ('const', i))])
+    for i, s in enumerate(sts):
+        s.trans.append(Tr(s, ['e1'], None, [sts[(i + 1) % len(sts)].id], False, []))
+        if rng.random() < 0.6: s.trans.append(Tr(s, ['e2'], None, [rng.choice(sts).id], False, []))
+    ch = Chart(root, 'late', {'x': 0, 'y': 1})
+    hist = [rng.choice(['e1', 'e1', 'e2']) for _ in range(rng.randint(3, 7))]
     return ch, hist
 
 
